@@ -410,6 +410,12 @@ class HdlcFrameReader(MeterReaderBase[HdlcFrame]):
 
         else:
             self._append_to_frame(self.FLAG_SEQUENCE)
+            if len(self._frame) > HdlcFrame.MAX_FRAME_LENGTH:
+                _LOGGER.debug(
+                    "Max frame length reached. Discard frame: %s",
+                    self._raw_frame_data.hex(),
+                )
+                self._goto_hunt_mode()
 
         return frame_complete
 
